@@ -329,7 +329,26 @@ def run(chk: Check) -> None:
                                 v["stored_hotwater"] = {}
                         return x
                     empty_dhw = sa != sb and strip_empty_dhw(sa) == strip_empty_dhw(sb)
-                    chk.violation("c16.fixpoint.schema.orphan_presence" if only_orphans else "c16.fixpoint.schema.empty_dhw" if empty_dhw else "c16.fixpoint.schema", f"schema differs after restore into a fresh gateway: {json.dumps(case['schemaA'])[:300]} vs {json.dumps(case['schemaB'])[:300]}", rep)
+                    def strip_circuits(x):
+                        # a UFC's circuit -> zone map is learnt from its RP|000C only: load_schema() takes the UFC, not its circuits
+                        x = json.loads(json.dumps(x))
+                        for v in x.values():
+                            if isinstance(v, dict) and isinstance(v.get("underfloor_heating"), dict):
+                                for u in v["underfloor_heating"].values():
+                                    if isinstance(u, dict) and isinstance(u.get("circuits"), dict):
+                                        u["circuits"] = {k: {} for k in u["circuits"]}
+                        return x
+                    not_loadable = None
+                    if not only_orphans and not empty_dhw:
+                        if strip_circuits(sa) == strip_circuits(sb):
+                            not_loadable = "ufc_circuits"
+                        elif strip_circuits(strip_empty_dhw(sa)) == strip_circuits(strip_empty_dhw(sb)):
+                            not_loadable = "ufc_circuits+empty_dhw"
+                    if not_loadable:
+                        # only when the packets that taught A those parts are not in the snapshot (expired and not asked for)
+                        chk.violation("c16.fixpoint.schema.not_loadable." + not_loadable, f"schema differs after restore into a fresh gateway (parts of the reported schema that load_schema does not take, their packets having expired): {json.dumps(case['schemaA'])[:300]} vs {json.dumps(case['schemaB'])[:300]}", rep)
+                    else:
+                      chk.violation("c16.fixpoint.schema.orphan_presence" if only_orphans else "c16.fixpoint.schema.empty_dhw" if empty_dhw else "c16.fixpoint.schema", f"schema differs after restore into a fresh gateway: {json.dumps(case['schemaA'])[:300]} vs {json.dumps(case['schemaB'])[:300]}", rep)
                 if case.get("pktsB2") is not None and case["pktsB2"] != B1:
                     chk.violation("c16.expired_purged_on_replay" if only_expired_lost(B1, case["pktsB2"], case["inc"], case["now"]) else "c16.restore_twice", "restoring the same snapshot a second time changed the snapshot", rep)
                 if "errorA" in case:
